@@ -1,7 +1,8 @@
 """tools/seed_prompt3.py <group> <prop ids comma> <files comma>  -> prompt on stdout (round 3: file-targeted)
-The agent works in /tmp/seed-<group>, writes out3/<k>/ and names in meta.json the property it breaks."""
+The agent works in /tmp/seed-<group>, writes {out}/<k>/ and names in meta.json the property it breaks."""
 import sys, json, glob
 grp, pids, files = sys.argv[1], sys.argv[2].split(','), sys.argv[3].split(',')
+out = sys.argv[4] if len(sys.argv) > 4 else '{out}'
 props = []
 for l in open('/verif/properties.jsonl'):
     p = json.loads(l)
@@ -19,7 +20,7 @@ Here are semantic properties the library is supposed to satisfy:
 
 {chr(10).join(props)}
 
-Your job: produce THREE different, independent source changes ("seeded defects"), each made ONLY in these files (they have received little attention so far): {', '.join(files)}. Each change
+Your job: produce THREE different, independent source changes ("seeded defects"), each made ONLY in these files (choose sites and mechanisms nobody has tried yet): {', '.join(files)}. Each change
  (1) still compiles (`go build ./ ./pkg/...` and `go vet . ./pkg/...` in the worktree),
  (2) still passes the library's existing test-suite unchanged: `go test -vet=off -count=1 . ./pkg/...` (run it; it takes ~10 s; a failure mentioning "address already in use" is a port clash with another checkout - just re-run),
  (3) BREAKS one of the properties above (say which one: the one it breaks most directly), and
@@ -28,8 +29,8 @@ Your job: produce THREE different, independent source changes ("seeded defects")
 Changes already produced by other engineers that involve these files (do NOT repeat their mechanisms):
 {chr(10).join(tried) if tried else '(none)'}
 
-For each of the three changes deliver, under /tmp/seed-{grp}/out3/<k>/ (k = 1,2,3; create the directories; `out3/` is not part of the library):
- - `patch.diff` : `git diff` of the change against the worktree's HEAD (only library source files), and NOTHING else changed in the worktree while you create it (reset between changes with `git checkout -- . && git clean -fd -e out3`),
+For each of the three changes deliver, under /tmp/seed-{grp}/{out}/<k>/ (k = 1,2,3; create the directories; `{out}/` is not part of the library):
+ - `patch.diff` : `git diff` of the change against the worktree's HEAD (only library source files), and NOTHING else changed in the worktree while you create it (reset between changes with `git checkout -- . && git clean -fd -e {out}`),
  - `demo_test.go` (package gohlslib or the relevant sub-package; say in meta.json where it must be placed): a demonstration that FAILS with the change applied and PASSES without it — verify both directions yourself and paste the two outputs into meta.json,
- - `meta.json` : {{"property": "<the id of the property it breaks, e.g. C10>", "summary": "<one paragraph: what was changed>", "needs": "<what it needs in order to manifest>", "demo_location": "<path where the demo file goes, relative to the worktree root, e.g. demo_g_test.go or pkg/playlist/demo_g_test.go>", "demo_cmd": "<one shell command, run from the worktree root, that first copies out3/<k>/demo_test.go to demo_location, runs the test, and removes the copy again>", "output_with_change": "...", "output_without_change": "...", "existing_tests_pass_with_change": true}}.
-Make the three changes genuinely different from each other (different functions / different mechanisms, if possible different files of the list). When done, leave the worktree clean except for `out3/` and report a 10-line summary of the three changes.""")
+ - `meta.json` : {{"property": "<the id of the property it breaks, e.g. C10>", "summary": "<one paragraph: what was changed>", "needs": "<what it needs in order to manifest>", "demo_location": "<path where the demo file goes, relative to the worktree root, e.g. demo_g_test.go or pkg/playlist/demo_g_test.go>", "demo_cmd": "<one shell command, run from the worktree root, that first copies {out}/<k>/demo_test.go to demo_location, runs the test, and removes the copy again>", "output_with_change": "...", "output_without_change": "...", "existing_tests_pass_with_change": true}}.
+Make the three changes genuinely different from each other (different functions / different mechanisms, if possible different files of the list). When done, leave the worktree clean except for `{out}/` and report a 10-line summary of the three changes.""")
